@@ -55,6 +55,9 @@ func TestC08(t *testing.T) {
 	rec := kit.Get("C08")
 	rapid.Check(t, func(t *rapid.T) {
 		o := genOptions(t, rec)
+		// (the statistics and dump options are debugging aids outside the
+		// functional option space: not drawn here, see DESIGN.md section 10-19)
+		genExtraOptions(t, &o, false)
 		c, s := genOptionHistory(t, historyPlan{MinBatches: 1, MaxBatches: 5, Interleave: true, Knobs: hostileKnobs()})
 		c.Options = o
 		res, err := RunStream(c, RunConfig{})
